@@ -87,6 +87,9 @@ func carCountItemsByFirstByte(carPath string) (map[byte]uint64, *ipldbindcode.Ep
 			return nil, nil, err
 		}
 		// the first data byte is the block type (after the CBOR tag)
+		if len(block) < 2 {
+			return nil, nil, fmt.Errorf("item %d has %d bytes of data: not a node", numTotalItems, len(block))
+		}
 		firstDataByte := block[1]
 		counts[firstDataByte]++
 		numTotalItems++
